@@ -119,3 +119,30 @@ func (s *Stats) Write(path string) {
 		panic(err)
 	}
 }
+
+// Merge adds another run's numbers to s.
+func (s *Stats) Merge(o *Stats) {
+	s.Cases += o.Cases
+	s.Evaluations += o.Evaluations
+	s.Nontrivial += o.Nontrivial
+	for k, v := range o.Dist {
+		s.Dist[k] += v
+	}
+	for _, x := range o.Samples {
+		s.Sample(x)
+	}
+	for _, f := range o.Failures {
+		s.Fail(f.Case, f.What, f.Replay)
+	}
+	for _, k := range o.Known {
+		found := false
+		for _, e := range s.Known {
+			if e == k {
+				found = true
+			}
+		}
+		if !found {
+			s.Known = append(s.Known, k)
+		}
+	}
+}
